@@ -10,6 +10,8 @@ CONFIG = {
         "V.C19.dns_expiry_bounded", "V.C19.dns_evict_spins_of_size_le_zero", "V.C19.dns_evict_spins_while_clock_frozen",
         "V.C19.fetch_union", "V.C19.fetch_spec_map", "V.C19.fetch_no_deadlock", "V.C19.fetch_terminates",
         "V.C19.fetch_waitgroup_exact", "V.C19.fetch_lockset_discipline",
+        "V.C19.fetch_callers_independent", "V.C19.fetch_live_caller_gets_union", "V.C19.fetch_live_caller_no_deadlock",
+        "V.C19.transport_get_spec", "V.C19.transport_reap_spec", "V.C19.transport_run_total",
         "V.C19.transport_no_dup", "V.C19.transport_lockset_discipline", "V.C19.event_accessors_read_only", "V.C19.event_id_same_for_all",
         "V.C19.sync_skeleton_dns_lookup", "V.C19.sync_skeleton_dns_dialcontext", "V.C19.sync_skeleton_transport",
         "V.C19.sync_skeleton_fetchkeys", "V.C19.sync_skeleton_eventid",
@@ -20,9 +22,19 @@ CONFIG = {
             "duration 1h / -1s (/ 500ms with real sleeps in thorough); thorough enumerates ALL schedules for 2 goroutines x lists<=2 "
             "and 3 goroutines x 1 op, quick samples them by seed. conc.fetch: 1-4 servers (good / several keys / error / unsigned / "
             "partly signed / valid_until 0 / no ed25519 key / wrong server_name / local; notary fallback variants), all release orders "
-            "for k<=3; conc.fetchbig: 84-93 servers (the 64-worker queue is used). conc.race_*: unscripted stress under the race detector "
+            "for k<=3; conc.fetchbig: 84-93 servers (the 64-worker queue is used). conc.fetch2: TWO concurrent FetchKeys calls on one "
+            "DirectKeyFetcher over the same 1-3 servers, each caller with its own context; the plan interleaves the two starts, the "
+            "releases of each caller's client calls and (70%) the cancellation of one caller's context — half of them right after both "
+            "callers have their requests in flight, i.e. before the remote answers; the scripted client tells the callers apart by a "
+            "context value and lets a cancelled call return the context's error; the specification demands the sequential union for "
+            "every caller whose own context stays live (fixed plans ABx, ABy, AxB, ABpx, … on a single answering server always run). "
+            "conc.transport (needs the hook VerifTripper of fclient/export_verif.go; without it no op is generated): scripts of 2-10 "
+            "moves over 3 TLS server names: getTransport, `idle for 2 x lifetime` / `idle for lifetime - 1 min` (lastUsed moved back), "
+            "one reaper pass; every move runs under a 4 s timeout, the trace lists the transport returned (by identity) and the cached "
+            "names after each move, `H` = the move never finished; model = Transport.trun, specification = every move finishes, a hit "
+            "returns the cached transport, a miss a fresh one, a reaper pass removes exactly the idle transports. conc.race_*: unscripted stress under the race detector "
             "(thorough). An op is non-trivial when its trace has >= 4 moves; distinct by op line",
-    "nontrivial": lambda op, impl: impl.count("|") >= 3 or impl.count("#") == 1 and len(impl) > 8 or impl in ("clean", "race-detected"),
+    "nontrivial": lambda op, impl: impl.count("|") >= 3 or impl.count("#") >= 1 and len(impl) > 8 or impl in ("clean", "race-detected"),
     "trusted": COMMON_TRUSTED + [
         "tools/extract/conc.go prints the synchronisation skeleton (Lock/Unlock/WaitGroup/close/oracle calls, loop and size/expiry conditions) of lookup, DialContext, getTransport, reaper, FetchKeys, EventID into VGen/Conc.lean; sync_skeleton_* re-check them against what the models mirror",
         "the Go scheduler, runtime (mutex, channel, WaitGroup semantics: modelled as atomic lock/unlock, atomic receive from a closed buffered channel, counter) and time.Now (monotonic, modelled as a non-decreasing parameter)",
@@ -36,7 +48,8 @@ CONFIG = {
         "dns_right_host assumes the resolver's successful answers are a function of the host name",
         "event accessors: EventIDRaw is written only during construction (populateEventID, /repo 69aec98) and read-only afterwards (event_accessors_read_only); that the OTHER accessors of a parsed event do not write is checked by reading + the race-detector ops conc.race_eventid / conc.race_event_readonly, not modelled field by field",
         "linearizable_lookup_partial: every result is one the sequential specification of its own op allows (right addresses; failure only if that lookup's own resolver call failed); the cached/not-cached flag and the map contents are not claimed to match one sequential execution (two concurrent misses of a name both resolve)",
-        "destinationTripper.getTransport / reaper: modelled (one locked region each, transport_no_dup) and stress-tested under the race detector; no schedule-for-schedule correspondence (no hook, needs TLS connections)",
+        "destinationTripper.getTransport / reaper: modelled (one locked region each: transport_no_dup, transport_get_spec, transport_reap_spec), compared with the real code move by move through time (conc.transport: sequences of getTransport / idle periods / reaper passes, each call under a timeout) and stress-tested under the race detector; interleavings INSIDE a region are not enumerated (a region is one critical section of transportsMutex); RoundTrip itself needs TLS connections and is not driven",
+        "conc.fetch2: a caller whose context is cancelled gets whatever its finished requests brought (the specification only demands that it holds no entry no server gave); the claim 'sequential result' is made for callers whose own context stays live",
         "the KeyDatabase given to a KeyRing is the caller's and must be thread-safe on its own",
     ],
 }
